@@ -19,6 +19,11 @@ import (
 // Viol is an oracle failure observed in a state or on a transition.
 type Viol struct {
 	Kind, Site, Detail string
+	// Expand: report the violation but still expand the state. Only for findings
+	// of a destructive end-of-state probe that did not pollute the state itself
+	// (the probed instance is discarded; successors are computed by replay).
+	// A state is expanded only if ALL its violations are marked Expand.
+	Expand bool
 }
 
 // System is one fresh instance of the implementation under test plus its
@@ -216,7 +221,13 @@ func (m *Model) search(run *report.Run, depth int, dedup bool) report.Part {
 			}
 			if len(res.viols) > 0 {
 				m.reportViols(run, part.Name, res.viols, path, jb.op)
-				continue // violating states are not expanded
+				expand := true
+				for _, v := range res.viols {
+					expand = expand && v.Expand
+				}
+				if !expand {
+					continue // violating states are not expanded
+				}
 			}
 			if dedup {
 				if seen[res.fp] {
